@@ -3,6 +3,25 @@
 NOT_YET = 'rules for this property are designed (DESIGN.md section 3) but not armed yet; not claimed until they pass their self-test and floors'
 
 CLAIMS = {
+    'C01': {
+        'text': 'Decides structural necessary conditions of exact explicit inclusion on every path of the anchored code: the option->algorithm dispatch '
+                '(case constants evaluated and decoded by the FLAG_MASK values; right algorithm entity, (smaller,bigger) order, sanitised operands and Identity(n) '
+                'for no-simulation cases, params.GetSimulation() otherwise, default throws) incl. the obligations of SanitizeAutsForInclusion, and the antichain '
+                'contains/refine comparator duality at every call site. Exactness of the antichain algorithms themselves is not decided.',
+        'note': 'trusted: clang 14 AST/CFG, exporter, the registered flags->entity table; rules are necessary conditions, not a proof of language inclusion',
+    },
+    'C07': {
+        'text': 'Decides, for both BDD encodings, the dispatch clauses (3 + 4 cases, delegation of the bottom-up downward variant with an equivalent InclParam on '
+                'sanitised operands and a simulation computed on their union, default throws => unimplemented selections raise an exception) and comparator duality of '
+                'the upward/downward functors as instantiated for the BDD cores. Equality with the explicit verdict is not decided.',
+        'note': 'trusted: clang 14 AST/CFG, exporter, flags->entity table',
+    },
+    'C09': {
+        'text': 'Decides structural necessary conditions of exact NFA inclusion: dispatch (7 cases: functor, search order, comparator, normal-form relation; union of the '
+                'sanitised operands for congruence; default throws), soundness of the subset memo tables (every add implied by the branch, every hit implies its verdict), '
+                'comparator/candidate duality of the two antichains, and full-equality lookup of the macro-state cache. Correctness of bisimulation up to congruence is not decided.',
+        'note': 'trusted: clang 14 AST/CFG, exporter, memo-table meaning (subsetMap_: subset, subsetNotMap_: not subset) fixed from the reader',
+    },
     'C11': {
         'text': 'Decides the copy-on-write discipline that value semantics of explicit tree/finite automata rests on: every mutation of a shared rule store '
                 '(state->cluster map, cluster, tuple set) reached through a shared_ptr uses a pointer that is Unique (from unique*()), Fresh or guarded by .unique(); '
